@@ -155,6 +155,8 @@ def canon(v):
         return ["s", v]
     if isinstance(v, Fill):
         return ["fill"]
+    if isinstance(v, float):
+        return ["f", repr(v)]
     return ["?", type(v).__name__]
 
 
